@@ -29,7 +29,11 @@ def gather_programs(chk, quick, rng, W):
         rng.shuffle(progs)
         seen, first, rest = set(), [], []
         for c in progs:
-            f = c.get("focus", "")
+            # ... in every place it can take in the chain of edits (first, followed by one or two plain appends, ...):
+            # what comes AFTER a construct matters to the printer as much as what comes before
+            labels = [e.get("label", "") for e in c.get("hist", [])]
+            rich_at = next((i for i, l in enumerate(labels) if l), -1)
+            f = (c.get("focus", ""), rich_at, len(labels))
             (rest if f in seen else first).append(c)
             seen.add(f)
         progs = (first + rest)[:max(1500, len(first))]
